@@ -17,9 +17,23 @@ roots on the same device) and every recheck list, if
   has equal content —
 * names are recorded legally and distinctly in both trees (`NamesOK`, as in C12),
 then the accelerated scan of `f₁` and the cold scan of `f₁` both fail or both
-succeed with **the same snapshot** (content and all four counters) and **the
-same digest cache**, and both ignore caches hold only the ignorer's answers
-(so they agree wherever both are defined; the accelerated one may lack keys).
+succeed with **the same snapshot** (content and all four counters), **the
+same digest cache**, and ignore caches related as follows:
+* both hold only the ignorer's answers;
+* the accelerated ignore cache is a **sub-map** of the cold one (every binding of
+  the accelerated cache is a binding of the cold cache);
+* a binding of the cold cache can be missing from the accelerated one **only at or
+  below a directory path that is not dirty** — everywhere else the two caches
+  are equal.
+Below a directory that is not dirty the scan does not descend: it walks the
+baseline entry instead (scan.go:527-560), and `walk_carries_over` says exactly
+which bindings that walk produces: the old ignore cache's bindings for the keys
+`(path, isDirectory)` of the baseline sub-tree's entries that are neither
+untracked nor problematic (`TrackedKey`); keys of ignored content (absent from
+the baseline), of untracked and of problematic entries are dropped, as are keys
+the old cache does not bind.  `cold_cache_binds_tracked_keys` shows the old
+cache (a cold scan's) does bind every such key, so on an unchanged sub-tree
+exactly the keys of ignored, untracked and problematic content are dropped.
 
 The hypotheses are exactly the property's: `content_change_must_be_visible`
 and `changes_must_be_reported` below show, on concrete trees, that dropping
@@ -27,7 +41,8 @@ either one makes the accelerated scan differ from the cold one.
 -/
 namespace Mutagen.Properties.C13
 open Mutagen.Model Mutagen.Model.ScanFS Mutagen.Proofs.ScanFS Mutagen.Proofs.ScanAccel
-open Mutagen.Proofs.ScanReuse Mutagen.Proofs.ScanSim Mutagen.Proofs.ScanAccelMain
+open Mutagen.Proofs.ScanReuse Mutagen.Proofs.ScanSim Mutagen.Proofs.ScanAccelMain Mutagen.Proofs.ScanIgnKeys
+open Mutagen.Proofs.ScanPaths (Under)
 
 theorem no_recheck_aux (cfg : Cfg) (out₀ : Out) (dev : Nat) (cs : Children) (E₀ : Entry)
     (hroot : out₀.snapshot.content = some E₀) (hk : E₀.kind = .directory)
@@ -47,7 +62,10 @@ theorem accel_eq_cold (cfg : Cfg) (dev : Nat) (cs₀ cs₁ : Children) (recheck 
     | .ok w, .ok c =>
       w.snapshot = c.snapshot ∧ w.cache = c.cache ∧
       (∀ k v, alookup k w.ignoreCache = some v → v = cfg.ignorer k.1 k.2) ∧
-      (∀ k v, alookup k c.ignoreCache = some v → v = cfg.ignorer k.1 k.2)
+      (∀ k v, alookup k c.ignoreCache = some v → v = cfg.ignorer k.1 k.2) ∧
+      (∀ k v, alookup k w.ignoreCache = some v → alookup k c.ignoreCache = some v) ∧
+      (∀ k v, alookup k c.ignoreCache = some v →
+        alookup k w.ignoreCache = some v ∨ ∃ cp, cp ≠ "" ∧ cp ∉ dirty ∧ Under k.1 cp)
     | .error e, .error e' => e = e'
     | _, _ => False := by
   have h := accel_eq_cold_core cfg dev cs₀ cs₁ recheck dirty out₀ E₀ hnames₀ hnames₁ hbase hroot hrootKind hrecheck hdirty hcovers
@@ -59,7 +77,68 @@ theorem accel_eq_cold (cfg : Cfg) (dev : Nat) (cs₀ cs₁ : Children) (recheck 
     | error e => exact id
     | ok c =>
       intro h
-      exact ⟨h.1, h.2.1, fun k v hk => ignOK_lookup cfg _ h.2.2.1 k v hk, fun k v hk => ignOK_lookup cfg _ h.2.2.2 k v hk⟩
+      obtain ⟨h1, h2, h3, h4, h5, h6⟩ := h
+      refine ⟨h1, h2, fun k v hk => ignOK_lookup cfg _ h3 k v hk, fun k v hk => ignOK_lookup cfg _ h4 k v hk,
+        submap_of_keys cfg _ _ h3 h4 h5, ?_⟩
+      intro k v hk
+      rcases h6 k (alookup_some_key _ k v hk) with hw | hd
+      · left
+        obtain ⟨v', hv'⟩ := key_alookup _ k hw
+        rw [hv', ignOK_lookup cfg _ h3 k v' hv', ignOK_lookup cfg _ h4 k v hk]
+      · exact Or.inr hd
+
+/-- `accel_eq_cold` for a root that is a regular file (before and after): with
+recheck paths, the accelerated scan equals the cold scan — same snapshot, same
+digest cache, and both ignore caches empty (no ignore question is asked about
+the root) — provided a content change shows in the modification time, the size
+or the inode number.  No other hypothesis is needed: whatever the old scan
+returned for the old file (a file entry, or a problematic one, in which case the
+baseline is discarded by scan.go:794-802), the digest is reused only under the
+`Covers` condition. -/
+theorem accel_eq_cold_file_root (cfg : Cfg) (content₀ : Bytes) (perm₀ : Nat) (mtime₀ : MTime) (size₀ ino₀ : Nat)
+    (content₁ : Bytes) (perm₁ : Nat) (mtime₁ : MTime) (size₁ ino₁ : Nat) (recheck dirty : List String) (out₀ : Out)
+    (hbase : scanCold cfg (some (.file content₀ perm₀ mtime₀ size₀ ino₀)) = .ok out₀)
+    (hrecheck : recheck ≠ []) (hdirty : dirtyClosure recheck [] = some dirty)
+    (hcovers : Covers cfg dirty "" (.file content₀ perm₀ mtime₀ size₀ ino₀) (.file content₁ perm₁ mtime₁ size₁ ino₁)) :
+    match scan cfg (prevOf out₀ recheck) (some (.file content₁ perm₁ mtime₁ size₁ ino₁)),
+          scanCold cfg (some (.file content₁ perm₁ mtime₁ size₁ ino₁)) with
+    | .ok w, .ok c => w.snapshot = c.snapshot ∧ w.cache = c.cache ∧ w.ignoreCache = [] ∧ c.ignoreCache = []
+    | .error e, .error e' => e = e'
+    | _, _ => False :=
+  accel_eq_cold_file_core cfg content₀ perm₀ mtime₀ size₀ ino₀ content₁ perm₁ mtime₁ size₁ ino₁ recheck dirty out₀
+    hbase hrecheck hdirty (by simpa [Covers] using hcovers)
+
+/-- What the baseline walk (scan.go:527-560, used instead of descending into a
+directory that is not dirty) adds to the new ignore cache: exactly the old
+cache's bindings of the keys of the tracked entries of the baseline sub-tree. -/
+theorem walk_carries_over (acc : Accel) (baseline : Entry) (path : String) (k : String × Bool) (v : IgnoreVal) :
+    (k, v) ∈ (reuseWalk acc path baseline ({}, false)).1.newIgnore ↔
+      TrackedKey path baseline k ∧ alookup k acc.ignoreCache = some v :=
+  reuseWalk_ign acc baseline path (k, v)
+
+/-- A cold scan's ignore cache binds the key of every tracked entry of its snapshot
+(the root itself excepted: nothing asks whether the root is ignored). -/
+theorem cold_cache_binds_tracked_keys (cfg : Cfg) (dev : Nat) (cs : Children) (out : Out) (E : Entry)
+    (h : scanCold cfg (some (.dir dev cs)) = .ok out) (hroot : out.snapshot.content = some E)
+    (k : String × Bool) (hk : TrackedKey "" E k) : k = ("", true) ∨ ∃ v, alookup k out.ignoreCache = some v := by
+  rw [Mutagen.Proofs.ScanFS.scanCold_dir] at h
+  have hc := coldKeys_node { cfg with deviceID := dev } (.dir dev cs) "" true false (.none, "")
+  simp only [Mutagen.Proofs.ScanCold.cold] at hc
+  revert h hc
+  cases scanNode { cfg with deviceID := dev } {} "" true none false (.none, "") (.dir dev cs) {} with
+  | mk r d =>
+    cases r with
+    | entry e =>
+      simp only [outOf]
+      intro h hc
+      cases h
+      simp only at hroot
+      cases hroot
+      rcases hc E rfl k hk with h1 | h1
+      · exact Or.inl h1
+      · exact Or.inr (key_alookup _ k h1)
+    | notExist => simp [outOf]
+    | abort => simp [outOf]
 
 /-- Without recheck paths an unchanged tree is answered from the base alone, and
 that answer is the cold scan's. -/
